@@ -58,6 +58,12 @@ func (in *Interp) symStr(name string, cls, min, max int) Str {
 	for i := range b {
 		b[i] = f.Var(8, fmt.Sprintf("%s[%d]", name, i))
 	}
+	if ps.modelOK {
+		// fresh variables: extend the model with a class member, no solver call needed
+		for i := range b {
+			ps.model[b[i]] = classDefault(cls)
+		}
+	}
 	for i := range b {
 		ps.assume(in, in.classByte(cls, b[i]))
 	}
@@ -125,6 +131,9 @@ func (in *Interp) registerSymIntrinsics() {
 			ps.inputs = append(ps.inputs, inputRec{Name: name, Kind: kind, Terms: []*Term{t}, W: w})
 			if ranged {
 				lo, hi := args[2].(*Term), args[3].(*Term)
+				if ps.modelOK && lo.IsConst() {
+					ps.model[t] = lo.C
+				}
 				if kind == "int" {
 					ps.assume(in, in.tf.Cmp(OSle, lo, t))
 					ps.assume(in, in.tf.Cmp(OSle, t, hi))
@@ -325,4 +334,14 @@ func decodeWitnessValue(v interface{}) interface{} {
 		return x
 	}
 	return v
+}
+
+func classDefault(cls int) uint64 {
+	switch cls {
+	case clsTOK:
+		return 1
+	case clsANY, clsNOMARK, clsHOST:
+		return 'a'
+	}
+	return 'a'
 }
